@@ -107,6 +107,8 @@ type Plan struct {
 	// NoModel: the program is judged by the direct oracle alone (real Writer, real Reader, value by
 	// value); the model, which does not depend on positions, sees a sample of these programs only
 	NoModel bool
+	// Limit > 0: the program is a sweep of values at the reader's limits (see LimitKinds)
+	Limit, LimitPos int
 }
 
 // BatchSizes are the sizes of WriteCompressed batches that get explored beyond the small ones:
@@ -117,6 +119,7 @@ type Want struct {
 	Obj      pdf.Object // normalised snapshot of what was written (streams: the user's dictionary)
 	IsStream bool
 	Data     []byte
+	KindOnly bool // only that it is a stream is checked
 	Declared bool // the caller's dictionary declares a chain; Data is what all of it decodes to
 	NArgs    int  // the number of filters passed to OpenStream
 	Pre      []byte // Declared: the bytes handed to Write (encoded with the declared chain)
@@ -152,6 +155,11 @@ type Result struct {
 	PreFilter bool
 	AfterCloseAccepted string // a Put after Close was accepted (how many bytes it appended)
 	HugeBatch bool // a WriteCompressed call with more than 10000 objects was accepted
+	Limits    bool   // a sweep along the reader's limits
+	MayEnd    bool   // ... in which an operation other than Put, WriteCompressed, OpenStream may fail
+	RefusedRefs map[pdf.Reference]bool // the references of refused calls
+	Refused   []int  // Put, WriteCompressed, OpenStream calls that were refused; the program went on
+	RefusedText []string
 }
 
 type runner struct {
@@ -162,9 +170,12 @@ type runner struct {
 	sink  *Sink
 	args  []argRec
 	pend  []pdf.Reference // allocated, not yet written
+	pages pdf.Reference   // the page tree root, if it has been written already
 	vals  []pdf.Object    // values Put earlier (to write the same value again)
 	inStream bool
 	final    bool
+	curRefs     []pdf.Reference // the references the current call is about
+	lastRefused bool // the operation just finished was refused (and the program goes on)
 	safe     bool // a planned program: no operation that may legitimately be refused (it would end the program before the file exists)
 }
 
@@ -277,10 +288,28 @@ func (x *runner) call(f func() error) (cls string, text string) {
 }
 
 // step finishes one operation: argument check, error bookkeeping.  Returns false to stop.
-func (x *runner) step(cls, text string) bool {
+func (x *runner) step(cls, text string) bool { return x.stepR(cls, text, false) }
+
+// stepR: a refusal of Put, WriteCompressed or OpenStream (resumable) is not the end of the
+// program: a refused call leaves the Writer as it was, whatever comes next must work as if the
+// call had not been made.
+func (x *runner) stepR(cls, text string, resumable bool) bool {
 	idx := x.res.NOps
 	x.res.NOps++
 	x.checkArgs()
+	x.lastRefused = false
+	if cls == "other" && resumable {
+		x.lastRefused = true
+		if x.res.RefusedRefs == nil {
+			x.res.RefusedRefs = map[pdf.Reference]bool{}
+		}
+		for _, r := range x.curRefs {
+			x.res.RefusedRefs[r] = true
+		}
+		x.res.Refused = append(x.res.Refused, idx)
+		x.res.RefusedText = append(x.res.RefusedText, fmt.Sprintf("op %d: %s", idx, text))
+		return true
+	}
 	if cls != "" {
 		x.res.ErrIdx = idx
 		x.res.ErrClass = cls
@@ -452,7 +481,8 @@ func (x *runner) put(ref pdf.Reference, o pdf.Object) bool {
 			x.res.DeferredStreamAccepted = true
 		}
 	}
-	return x.step(cls, text)
+	x.curRefs = []pdf.Reference{ref}
+	return x.stepR(cls, text, true)
 }
 
 var filterChoices = []pdf.Filter{pdf.FilterFlate{}, pdf.FilterASCII85{}, pdf.FilterASCIIHex{}, pdf.FilterRunLength{}, pdf.FilterLZW{}}
@@ -481,6 +511,9 @@ type streamSpec struct {
 	decl      []pdf.Filter
 	body      []byte
 	quiet     bool // one Write, nothing in between
+	dict      pdf.Dict     // the dictionary (nil: random)
+	deferred  []pdf.Object // values Put while the stream is open
+	kindOnly  bool         // the data is not expected to decode (a declared chain no reader accepts)
 }
 
 // stream runs OpenStream ... Close with the in-stream operations chosen at random.
@@ -512,6 +545,12 @@ func (x *runner) streamWith(plan *Plan, sp streamSpec) bool {
 		return false
 	}
 	d := x.genDict()
+	if sp.dict != nil {
+		d = pdf.Dict{}
+		for k, v := range sp.dict {
+			d[k] = v
+		}
+	}
 	fs := append([]pdf.Filter{}, sp.fs...)
 	if !sp.haveFs {
 		fs = x.genFilters()
@@ -579,14 +618,18 @@ func (x *runner) streamWith(plan *Plan, sp streamSpec) bool {
 	x.tok("O %d %d %s %d %s E %d %s", ref.Number(), ref.Generation(), WireString(d, false), len(fs), strings.Join(ftoks, " "), len(etoks), strings.Join(etoks, " "))
 	x.desc("OpenStream(%v, %s, filters %s)", ref, WireString(d, false), filterNames(x.cfg.V(), fs))
 	var ws io.WriteCloser
-	want := &Want{Obj: Norm(stripStreamKeys(d)), IsStream: true, Data: body, Declared: pre, NArgs: len(fs), Pre: toWrite}
+	want := &Want{Obj: Norm(stripStreamKeys(d)), IsStream: true, Data: body, Declared: pre, NArgs: len(fs), Pre: toWrite, KindOnly: sp.kindOnly}
 	cls, text := x.call(func() error {
 		var err error
 		ws, err = x.w.OpenStream(ref, d, fs...)
 		return err
 	})
-	if !x.step(cls, text) {
+	x.curRefs = []pdf.Reference{ref}
+	if !x.stepR(cls, text, true) {
 		return false
+	}
+	if x.lastRefused {
+		return true // nothing was opened
 	}
 	x.inStream = true
 	if _, dup := x.res.Want[ref]; !dup {
@@ -660,17 +703,29 @@ func (x *runner) streamWith(plan *Plan, sp streamSpec) bool {
 					x.tok("O 77 0 D0 0 E 0")
 					x.desc("OpenStream while open")
 					cls, text := x.call(func() error { _, err := x.w.OpenStream(pdf.NewReference(77, 0), pdf.Dict{}); return err })
-					return x.step(cls, text)
+					if !x.stepR(cls, text, true) || !x.lastRefused {
+						return false // accepted: the harness has no handle on that stream
+					}
 				case 1:
 					x.tok("C 1 78 0 1 o i1 1 0")
 					x.desc("WriteCompressed while open")
 					cls, text := x.call(func() error { return x.w.WriteCompressed([]pdf.Reference{pdf.NewReference(78, 0)}, pdf.Integer(1)) })
-					return x.step(cls, text)
+					if !x.stepR(cls, text, true) {
+						return false
+					}
 				default:
 					x.tok("Z D0 0")
 					x.desc("Close while open")
 					cls, text := x.call(func() error { return x.w.Close() })
 					return x.step(cls, text)
+				}
+			}
+		}
+		if c == 0 {
+			for _, v := range sp.deferred {
+				dref, ok := x.alloc()
+				if !ok || !x.put(dref, v) {
+					return false
 				}
 			}
 		}
@@ -792,7 +847,8 @@ func (x *runner) writeCompressed(refs []pdf.Reference, objs []pdf.Object) bool {
 			x.vals = append(x.vals, objs[i])
 		}
 	}
-	return x.step(cls, text)
+	x.curRefs = refs
+	return x.stepR(cls, text, true)
 }
 
 // Run generates a program op by op and runs it on the real Writer.
@@ -857,6 +913,9 @@ func Run(r *rand.Rand, cfg Config, plan Plan) *Result {
 	if alive && plan.ChainTo > plan.ChainFrom {
 		alive = x.chainSweep(&plan)
 	}
+	if alive && plan.Limit > 0 {
+		alive = x.limitSweep(&plan)
+	}
 	if alive && plan.BoundaryKind > 0 {
 		alive = x.boundarySweep(&plan)
 	}
@@ -901,12 +960,16 @@ func Run(r *rand.Rand, cfg Config, plan Plan) *Result {
 	}
 
 	// the page tree root, catalog and info; then Close
-	pages, ok := x.alloc()
-	if !ok {
-		return res
-	}
-	if !x.put(pages, pdf.Dict{"Type": pdf.Name("Pages"), "Kids": pdf.Array{}, "Count": pdf.Integer(0)}) {
-		return res
+	pages := x.pages
+	if pages == 0 {
+		var ok bool
+		pages, ok = x.alloc()
+		if !ok {
+			return res
+		}
+		if !x.put(pages, pdf.Dict{"Type": pdf.Name("Pages"), "Kids": pdf.Array{}, "Count": pdf.Integer(0)}) {
+			return res
+		}
 	}
 	res.Pages = pages
 	meta := x.w.GetMeta()
